@@ -490,4 +490,332 @@ Section Gotoh.
       + exists p1. rewrite Hu1. exact E1.
       + exists p2. rewrite Hu2. exact E2.
   Qed.
+
+  (* ======== the optimum is attained (sequences without gap characters) ================================= *)
+  Hypothesis Hng1 : forall b, In b s1 -> isgap b = false.
+  Hypothesis Hng2 : forall b, In b s2 -> isgap b = false.
+
+  Lemma firstn_S_nth (s : list byte) I : (I < length s)%nat -> firstn (S I) s = firstn I s ++ [nth I s GAPB].
+  Proof.
+    revert I. induction s as [|h t IH]; intros I H; [cbn in H; lia|].
+    destruct I as [|I]; [reflexivity|]. cbn [firstn nth app]. f_equal. apply IH. cbn in H. lia.
+  Qed.
+
+  Lemma nth_nogap1 I : (I < length s1)%nat -> isgap (nth I s1 GAPB) = false.
+  Proof. intros H. apply Hng1. apply nth_In. exact H. Qed.
+  Lemma nth_nogap2 J : (J < length s2)%nat -> isgap (nth J s2 GAPB) = false.
+  Proof. intros H. apply Hng2. apply nth_In. exact H. Qed.
+
+  Lemma ends_at_nil I J : (I <= length s1)%nat -> (J <= length s2)%nat -> ends_at [] [] I J.
+  Proof.
+    intros HI HJ. repeat split; auto.
+    - intros k Hk. cbn in Hk. lia.
+    - exists (firstn I s1). cbn. rewrite app_nil_r. reflexivity.
+    - exists (firstn J s2). cbn. rewrite app_nil_r. reflexivity.
+  Qed.
+
+  Lemma no_double_gap_snoc r1 r2 a b : length r1 = length r2 -> no_double_gap r1 r2 ->
+    ~ (isgap a = true /\ isgap b = true) -> no_double_gap (r1 ++ [a]) (r2 ++ [b]).
+  Proof.
+    intros Hl Hnd Hab k Hk. rewrite app_length in Hk. cbn in Hk.
+    destruct (Nat.lt_ge_cases k (length r1)) as [Hlt|Hge].
+    - rewrite !app_nth1 by lia. apply Hnd. exact Hlt.
+    - assert (k = length r1) by lia. subst k. rewrite app_nth2 by lia. rewrite Nat.sub_diag.
+      rewrite Hl. rewrite app_nth2 by lia. rewrite Nat.sub_diag. cbn. intros [Ha Hb]. apply Hab.
+      split; apply isgap_true; assumption.
+  Qed.
+
+  Lemma isgap_GAPB : isgap GAPB = true. Proof. apply isgap_true. reflexivity. Qed.
+
+  Lemma ext_pair r1 r2 I J : ends_at r1 r2 I J -> (I < length s1)%nat -> (J < length s2)%nat ->
+    ends_at (r1 ++ [nth I s1 GAPB]) (r2 ++ [nth J s2 GAPB]) (S I) (S J).
+  Proof.
+    intros [Hl [Hnd [[p1 H1] [[p2 H2] _]]]] HI HJ.
+    pose proof (nth_nogap1 I HI) as Ea. pose proof (nth_nogap2 J HJ) as Eb.
+    repeat split; try lia.
+    - rewrite !app_length. cbn. lia.
+    - apply no_double_gap_snoc; auto. intros [E _]. congruence.
+    - exists p1. rewrite ungap_app, (ungap_cons_res _ [] Ea). change (ungap []) with (@nil byte).
+      rewrite app_assoc, <- H1. apply firstn_S_nth. exact HI.
+    - exists p2. rewrite ungap_app, (ungap_cons_res _ [] Eb). change (ungap []) with (@nil byte).
+      rewrite app_assoc, <- H2. apply firstn_S_nth. exact HJ.
+  Qed.
+
+  Lemma ext_gap2 r1 r2 I J : ends_at r1 r2 I J -> (I < length s1)%nat ->
+    ends_at (r1 ++ [nth I s1 GAPB]) (r2 ++ [GAPB]) (S I) J.
+  Proof.
+    intros [Hl [Hnd [[p1 H1] [[p2 H2] [_ HJ]]]]] HI. pose proof (nth_nogap1 I HI) as Ea.
+    repeat split; try lia.
+    - rewrite !app_length. cbn. lia.
+    - apply no_double_gap_snoc; auto. intros [E _]. congruence.
+    - exists p1. rewrite ungap_app, (ungap_cons_res _ [] Ea). change (ungap []) with (@nil byte).
+      rewrite app_assoc, <- H1. apply firstn_S_nth. exact HI.
+    - exists p2. rewrite ungap_app, (ungap_cons_gap _ [] isgap_GAPB). change (ungap []) with (@nil byte).
+      rewrite app_nil_r. exact H2.
+  Qed.
+
+  Lemma ext_gap1 r1 r2 I J : ends_at r1 r2 I J -> (J < length s2)%nat ->
+    ends_at (r1 ++ [GAPB]) (r2 ++ [nth J s2 GAPB]) I (S J).
+  Proof.
+    intros [Hl [Hnd [[p1 H1] [[p2 H2] [HI _]]]]] HJ. pose proof (nth_nogap2 J HJ) as Eb.
+    repeat split; try lia.
+    - rewrite !app_length. cbn. lia.
+    - apply no_double_gap_snoc; auto. intros [_ E]. congruence.
+    - exists p1. rewrite ungap_app, (ungap_cons_gap _ [] isgap_GAPB). change (ungap []) with (@nil byte).
+      rewrite app_nil_r. exact H1.
+    - exists p2. rewrite ungap_app, (ungap_cons_res _ [] Eb). change (ungap []) with (@nil byte).
+      rewrite app_assoc, <- H2. apply firstn_S_nth. exact HJ.
+  Qed.
+
+  (* an alignment that ends at (I, J) with a column of the given type and the given score *)
+  Definition attained (I J : nat) (ty v : Z) : Prop :=
+    exists r1 r2 a b, ends_at (r1 ++ [a]) (r2 ++ [b]) I J /\ col_type a b = ty /\ sc (r1 ++ [a]) (r2 ++ [b]) = v.
+
+  Definition ach (I J : nat) (c : Z * Z * Z) : Prop :=
+    let '(m, x, y) := c in attained I J 0 m /\ (0 < x -> attained I J 2 x) /\ (0 < y -> attained I J 1 y).
+
+  Lemma col_type_pair a b : isgap a = false -> isgap b = false -> col_type a b = 0.
+  Proof. unfold col_type. intros -> ->. reflexivity. Qed.
+  Lemma col_type_g2 a : isgap a = false -> col_type a GAPB = 2.
+  Proof. unfold col_type. intros ->. rewrite isgap_GAPB. reflexivity. Qed.
+  Lemma col_type_g1 b : col_type GAPB b = 1.
+  Proof. unfold col_type. rewrite isgap_GAPB. reflexivity. Qed.
+
+  (* a positive best value of a cell is attained by some alignment ending there *)
+  Lemma best_attained I J c : ach I J c -> 0 < cellbest c -> exists ty, attained I J ty (cellbest c).
+  Proof.
+    destruct c as [[m x] y]. intros [Am [Ax Ay]] Hpos. unfold cellbest, max3 in *.
+    destruct (Z.max_spec m (Z.max x y)) as [[H1 E1]|[H1 E1]]; rewrite E1 in *.
+    - destruct (Z.max_spec x y) as [[H2 E2]|[H2 E2]]; rewrite E2 in *.
+      + exists 1. apply Ay. lia.
+      + exists 2. apply Ax. lia.
+    - exists 0. exact Am.
+  Qed.
+
+  Lemma step_m_ach I J diag : (I < length s1)%nat -> (J < length s2)%nat ->
+    (cellbest diag <= 0 \/ ach I J diag) ->
+    attained (S I) (S J) 0 (sub (nth I s1 GAPB) (nth J s2 GAPB) + Z.max 0 (cellbest diag)).
+  Proof.
+    intros HI HJ Hd. pose proof (nth_nogap1 I HI) as Ea. pose proof (nth_nogap2 J HJ) as Eb.
+    destruct (Z_le_gt_dec (cellbest diag) 0) as [Hle|Hgt].
+    - (* a fresh start *)
+      exists [], [], (nth I s1 GAPB), (nth J s2 GAPB). split; [|split].
+      + apply (ext_pair [] [] I J); [apply ends_at_nil; lia | exact HI | exact HJ].
+      + apply col_type_pair; assumption.
+      + unfold sc. cbn [app score_cols]. rewrite Ea, Eb. lia.
+    - destruct Hd as [Hd|Hd]; [lia|].
+      destruct (best_attained I J diag Hd ltac:(lia)) as [ty [r1 [r2 [a [b [He [_ Hs]]]]]]].
+      exists (r1 ++ [a]), (r2 ++ [b]), (nth I s1 GAPB), (nth J s2 GAPB). split; [|split].
+      + apply ext_pair; assumption.
+      + apply col_type_pair; assumption.
+      + pose proof He as [Hl _]. unfold sc in *. rewrite score_cols_snoc by exact Hl. unfold col_cost. rewrite Ea, Eb. lia.
+  Qed.
+
+  Lemma step_x_ach I J up (first_row : bool) : (I < length s1)%nat ->
+    (first_row = false -> ach I J up) ->
+    let x := if first_row then NEG else Z.max (cellbest up + opn) (let '(_, ux, _) := up in ux + ext) in
+    0 < x -> attained (S I) J 2 x.
+  Proof.
+    intros HI Hup x Hx. pose proof (nth_nogap1 I HI) as Ea. subst x.
+    destruct first_row; [unfold NEG in Hx; lia|]. specialize (Hup eq_refl).
+    destruct up as [[um ux] uy]. pose proof Hup as [Am [Ax Ay]].
+    destruct (Z_le_gt_dec (cellbest (um, ux, uy) + opn) (ux + ext)) as [Hc|Hc].
+    - (* extend a gap run *)
+      rewrite Z.max_r in * by lia.
+      destruct (Ax ltac:(lia)) as [r1 [r2 [a [b [He [Ht Hs]]]]]].
+      exists (r1 ++ [a]), (r2 ++ [b]), (nth I s1 GAPB), GAPB. split; [|split].
+      + apply ext_gap2; assumption.
+      + apply col_type_g2. exact Ea.
+      + pose proof He as [Hl _]. unfold sc in *. rewrite score_cols_snoc by exact Hl.
+        rewrite !app_length in Hl. cbn in Hl. rewrite last_type_snoc by lia. rewrite Ht.
+        unfold col_cost. rewrite Ea, isgap_GAPB. cbn [Z.eqb Pos.eqb]. lia.
+    - (* open a gap after the best alignment, which does not end with a gap in row 2 *)
+      rewrite Z.max_l in * by lia.
+      assert (Hbest : 0 < cellbest (um, ux, uy)) by lia.
+      unfold cellbest, max3 in *.
+      destruct (Z.max_spec um (Z.max ux uy)) as [[H1 E1]|[H1 E1]]; rewrite E1 in *.
+      + destruct (Z.max_spec ux uy) as [[H2 E2]|[H2 E2]]; rewrite E2 in *.
+        * destruct (Ay ltac:(lia)) as [r1 [r2 [a [b [He [Ht Hs]]]]]].
+          exists (r1 ++ [a]), (r2 ++ [b]), (nth I s1 GAPB), GAPB. split; [|split].
+          -- apply ext_gap2; assumption.
+          -- apply col_type_g2. exact Ea.
+          -- pose proof He as [Hl _]. unfold sc in *. rewrite score_cols_snoc by exact Hl.
+             rewrite !app_length in Hl. cbn in Hl. rewrite last_type_snoc by lia. rewrite Ht.
+             unfold col_cost. rewrite Ea, isgap_GAPB. cbn [Z.eqb Pos.eqb]. lia.
+        * (* the best is the X value itself: then extending would be at least as good *) lia.
+      + destruct Am as [r1 [r2 [a [b [He [Ht Hs]]]]]].
+        exists (r1 ++ [a]), (r2 ++ [b]), (nth I s1 GAPB), GAPB. split; [|split].
+        * apply ext_gap2; assumption.
+        * apply col_type_g2. exact Ea.
+        * pose proof He as [Hl _]. unfold sc in *. rewrite score_cols_snoc by exact Hl.
+          rewrite !app_length in Hl. cbn in Hl. rewrite last_type_snoc by lia. rewrite Ht.
+          unfold col_cost. rewrite Ea, isgap_GAPB. cbn [Z.eqb Pos.eqb]. lia.
+  Qed.
+
+  Lemma step_y_ach I J left : (J < length s2)%nat ->
+    (left = d0 \/ ach I J left) ->
+    let y := Z.max (cellbest left + opn) (let '(_, _, ly) := left in ly + ext) in
+    0 < y -> attained I (S J) 1 y.
+  Proof.
+    intros HJ Hl y Hy. pose proof (nth_nogap2 J HJ) as Eb. subst y.
+    destruct Hl as [->|Hl]; [unfold d0, cellbest, max3, NEG in Hy; lia|].
+    destruct left as [[lm lx] ly]. pose proof Hl as [Am [Ax Ay]].
+    assert (Fin : forall r1 r2 a b ty cost v, ends_at (r1 ++ [a]) (r2 ++ [b]) I J -> col_type a b = ty ->
+                  sc (r1 ++ [a]) (r2 ++ [b]) = v -> cost = (if ty =? 1 then ext else opn) ->
+                  attained I (S J) 1 (v + cost)).
+    { intros r1 r2 a b ty cost v He Ht Hs Hcost.
+      exists (r1 ++ [a]), (r2 ++ [b]), GAPB, (nth J s2 GAPB). split; [|split].
+      - apply ext_gap1; assumption.
+      - apply col_type_g1.
+      - pose proof He as [Hlen _]. unfold sc in *. rewrite score_cols_snoc by exact Hlen.
+        rewrite !app_length in Hlen. cbn in Hlen. rewrite last_type_snoc by lia. rewrite Ht.
+        unfold col_cost. rewrite isgap_GAPB. lia. }
+    destruct (Z_le_gt_dec (cellbest (lm, lx, ly) + opn) (ly + ext)) as [Hc|Hc].
+    - rewrite Z.max_r in * by lia.
+      destruct (Ay ltac:(lia)) as [r1 [r2 [a [b [He [Ht Hs]]]]]].
+      apply (Fin r1 r2 a b 1 ext ly He Ht Hs). reflexivity.
+    - rewrite Z.max_l in * by lia. unfold cellbest, max3 in *.
+      destruct (Z.max_spec lm (Z.max lx ly)) as [[H1 E1]|[H1 E1]]; rewrite E1 in *.
+      + destruct (Z.max_spec lx ly) as [[H2 E2]|[H2 E2]]; rewrite E2 in *.
+        * lia.
+        * destruct (Ax ltac:(lia)) as [r1 [r2 [a [b [He [Ht Hs]]]]]].
+          apply (Fin r1 r2 a b 2 opn lx He Ht Hs). reflexivity.
+      + destruct Am as [r1 [r2 [a [b [He [Ht Hs]]]]]].
+        apply (Fin r1 r2 a b 0 opn lm He Ht Hs). reflexivity.
+  Qed.
+
+  Lemma cellbest_d0 : cellbest d0 <= 0.
+  Proof. unfold d0, cellbest, max3, NEG. lia. Qed.
+
+  Lemma row_ach I (first_row : bool) : (I < length s1)%nat -> forall suf pre prev diag left,
+    s2 = pre ++ suf ->
+    (first_row = true -> prev = []) ->
+    (first_row = false -> length prev = length suf /\ forall k, (k < length suf)%nat -> ach I (length pre + k + 1) (nth k prev d0)) ->
+    (cellbest diag <= 0 \/ ach I (length pre) diag) ->
+    (left = d0 \/ ach (S I) (length pre) left) ->
+    let row := gotoh_row sub opn ext (nth I s1 GAPB) suf prev diag left first_row in
+    forall k, (k < length suf)%nat -> ach (S I) (length pre + k + 1) (nth k row d0).
+  Proof.
+    intros HI. induction suf as [|b t2 IH]; intros pre prev diag left Hs Hfirst Hprev Hdiag Hleft; cbn zeta.
+    - intros k Hk. cbn in Hk. lia.
+    - cbn [gotoh_row]. cbv zeta.
+      set (J := length pre) in *.
+      set (up := match prev with c :: _ => c | [] => (NEG, NEG, NEG) end).
+      set (m := sub (nth I s1 GAPB) b + Z.max 0 (cellbest diag)).
+      set (x := if first_row then NEG else Z.max (cellbest up + opn) (let '(_, ux, _) := up in ux + ext)).
+      set (y := Z.max (cellbest left + opn) (let '(_, _, ly) := left in ly + ext)).
+      assert (HJ : (J < length s2)%nat) by (rewrite Hs, app_length; cbn [length]; unfold J; lia).
+      assert (Hb : b = nth J s2 GAPB).
+      { rewrite Hs. unfold J. rewrite app_nth2 by lia. rewrite Nat.sub_diag. reflexivity. }
+      assert (Hup : first_row = false -> ach I (S J) up).
+      { intros Hf. destruct (Hprev Hf) as [Hlp Hd]. specialize (Hd 0%nat ltac:(cbn [length]; lia)).
+        replace (J + 0 + 1)%nat with (S J) in Hd by lia. destruct prev as [|c pt]; [cbn in Hlp; lia|]. exact Hd. }
+      assert (Hc : ach (S I) (S J) (m, x, y)).
+      { split; [|split].
+        - subst m. rewrite Hb. apply step_m_ach; assumption.
+        - intros Hx. apply (step_x_ach I (S J) up first_row HI Hup). exact Hx.
+        - intros Hy. apply (step_y_ach (S I) J left HJ Hleft). exact Hy. }
+      intros k Hk. destruct k as [|k].
+      + cbn [nth]. replace (J + 0 + 1)%nat with (S J) by lia. exact Hc.
+      + cbn [nth]. replace (J + S k + 1)%nat with (length (pre ++ [b]) + k + 1)%nat by (rewrite app_length; cbn [length]; fold J; lia).
+        apply (IH (pre ++ [b]) (tl prev) up (m, x, y)).
+        * rewrite <- app_assoc. exact Hs.
+        * intros Hf. rewrite (Hfirst Hf). reflexivity.
+        * intros Hf. destruct (Hprev Hf) as [Hlp Hd]. split.
+          -- destruct prev; cbn [tl length] in *; lia.
+          -- intros k' Hk'. specialize (Hd (S k') ltac:(cbn [length]; lia)). rewrite app_length. cbn [length]. fold J.
+             replace (J + 1 + k' + 1)%nat with (J + S k' + 1)%nat by lia.
+             destruct prev as [|c pt]; [cbn in Hlp; lia|]. cbn [tl]. cbn [nth] in Hd. exact Hd.
+        * rewrite app_length. cbn [length]. fold J. replace (J + 1)%nat with (S J) by lia.
+          destruct first_row; [left; unfold up; rewrite (Hfirst eq_refl); apply cellbest_d0 | right; apply Hup; reflexivity].
+        * right. rewrite app_length. cbn [length]. fold J. replace (J + 1)%nat with (S J) by lia. exact Hc.
+        * cbn [length] in Hk. lia.
+  Qed.
+
+  Lemma gotoh_row_length a first : forall suf prev diag left, length (gotoh_row sub opn ext a suf prev diag left first) = length suf.
+  Proof. induction suf as [|b t IH]; intros prev diag left; cbn [gotoh_row]; [reflexivity|]. cbv zeta. cbn [length]. rewrite IH. reflexivity. Qed.
+
+  Lemma fold_best_source : forall row best, fold_best row best = best \/ exists c, In c row /\ mval c = fold_best row best.
+  Proof.
+    induction row as [|c t IH]; intros best; unfold fold_best in *; cbn [fold_left]; [left; reflexivity|].
+    destruct c as [[m x] y]. destruct (IH (Z.max best m)) as [E|[c' [Hin E]]].
+    - rewrite E. destruct (Z.max_spec best m) as [[_ E2]|[_ E2]]; rewrite E2; [right; exists (m, x, y); split; [left; reflexivity | reflexivity] | left; reflexivity].
+    - right. exists c'. split; [right; exact Hin | exact E].
+  Qed.
+
+  (* the value returned is the initial one or the M value of a cell whose three values are attained *)
+  Lemma rows_source : forall todo done prev (first : bool) best,
+    s1 = done ++ todo ->
+    (first = true -> prev = [] /\ done = []) ->
+    (first = false -> length prev = length s2 /\ forall k, (k < length s2)%nat -> ach (length done) (k + 1) (nth k prev d0)) ->
+    gotoh_rows sub opn ext todo s2 prev first best = best \/
+    exists I J c, ach I J c /\ mval c = gotoh_rows sub opn ext todo s2 prev first best.
+  Proof.
+    induction todo as [|a t IH]; intros done prev first best Hs Hfirst Hprev; cbn [gotoh_rows]; [left; reflexivity|].
+    cbv zeta. set (I0 := length done) in *.
+    assert (HI0 : (I0 < length s1)%nat) by (rewrite Hs, app_length; cbn [length]; unfold I0; lia).
+    assert (Ha : a = nth I0 s1 GAPB).
+    { rewrite Hs. unfold I0. rewrite app_nth2 by lia. rewrite Nat.sub_diag. reflexivity. }
+    set (row := gotoh_row sub opn ext a s2 prev (NEG, NEG, NEG) (NEG, NEG, NEG) first).
+    assert (Hrow : forall k, (k < length s2)%nat -> ach (S I0) (k + 1) (nth k row d0)).
+    { intros k Hk. subst row. rewrite Ha.
+      apply (row_ach I0 first HI0 s2 [] prev (NEG, NEG, NEG) (NEG, NEG, NEG) eq_refl).
+      - intros Hf. apply (proj1 (Hfirst Hf)).
+      - intros Hf. destruct (Hprev Hf) as [Hlp Hd]. split; [exact Hlp|]. intros k' Hk'. cbn [length Nat.add]. apply Hd. exact Hk'.
+      - left. apply cellbest_d0.
+      - left. reflexivity.
+      - exact Hk. }
+    assert (Hlen : length row = length s2) by (unfold row; apply gotoh_row_length).
+    destruct (IH (done ++ [a]) row false (fold_best row best)) as [E|[I [J [c [Hc E]]]]].
+    - rewrite <- app_assoc. exact Hs.
+    - discriminate.
+    - intros _. split; [exact Hlen|]. intros k Hk. rewrite app_length. cbn [length]. fold I0. replace (I0 + 1)%nat with (S I0) by lia.
+      apply Hrow. exact Hk.
+    - fold (fold_best row best). rewrite E. destruct (fold_best_source row best) as [E2|[c [Hin E2]]].
+      + left. exact E2.
+      + right. destruct (In_nth row c d0 Hin) as [k [Hk Hnth]]. exists (S I0), (k + 1)%nat, c. split; [|exact E2].
+        rewrite <- Hnth. apply Hrow. lia.
+    - right. exists I, J, c. split; [exact Hc|]. fold (fold_best row best). exact E.
+  Qed.
+
+  (* from an alignment ending at a cell to a valid local alignment *)
+  Lemma ends_at_valid r1 r2 I J : ends_at r1 r2 I J -> r1 <> [] -> ungap r1 <> [] -> ungap r2 <> [] ->
+    exists st1 st2 en1 en2, valid_alignment s1 s2 r1 r2 st1 st2 en1 en2.
+  Proof.
+    intros [Hl [Hnd [[p1 H1] [[p2 H2] [HI HJ]]]]] Hne Hu1 Hu2.
+    assert (L1 : length (firstn I s1) = I) by (apply firstn_length_le; exact HI).
+    assert (L2 : length (firstn J s2) = J) by (apply firstn_length_le; exact HJ).
+    assert (N1 : (length p1 < I)%nat).
+    { rewrite H1, app_length in L1. destruct (ungap r1); [contradiction | cbn in L1; lia]. }
+    assert (N2 : (length p2 < J)%nat).
+    { rewrite H2, app_length in L2. destruct (ungap r2); [contradiction | cbn in L2; lia]. }
+    exists (Z.of_nat (length p1)), (Z.of_nat (length p2)), (Z.of_nat I - 1), (Z.of_nat J - 1).
+    constructor; [exact Hl | exact Hnd | |].
+    - split; [lia|]. split; [lia|]. unfold sub_string. rewrite Nat2Z.id.
+      replace (Z.to_nat (Z.of_nat I - 1 - Z.of_nat (length p1) + 1)) with (I - length p1)%nat by lia.
+      rewrite <- skipn_firstn_comm, H1. rewrite skipn_app, Nat.sub_diag, skipn_all. reflexivity.
+    - split; [lia|]. split; [lia|]. unfold sub_string. rewrite Nat2Z.id.
+      replace (Z.to_nat (Z.of_nat J - 1 - Z.of_nat (length p2) + 1)) with (J - length p2)%nat by lia.
+      rewrite <- skipn_firstn_comm, H2. rewrite skipn_app, Nat.sub_diag, skipn_all. reflexivity.
+  Qed.
+
+  (* the optimum is 0 (no alignment scores above the empty one) or the score of a valid local alignment *)
+  Theorem gotoh_attained :
+    gotoh_best sub opn ext s1 s2 = 0 \/
+    exists r1 r2 st1 st2 en1 en2, valid_alignment s1 s2 r1 r2 st1 st2 en1 en2 /\
+                                   score_cols sub opn ext r1 r2 0 = gotoh_best sub opn ext s1 s2.
+  Proof.
+    unfold gotoh_best. destruct (rows_source s1 [] [] true 0) as [E|[I [J [[[m x] y] [[Am _] E]]]]].
+    - reflexivity.
+    - intros _. auto.
+    - discriminate.
+    - left. exact E.
+    - right. cbn [mval] in E. destruct Am as [r1 [r2 [a [b [He [Ht Hs]]]]]].
+      destruct (col_type_0 a b Ht) as [Ea Eb].
+      destruct (ends_at_valid (r1 ++ [a]) (r2 ++ [b]) I J He) as [st1 [st2 [en1 [en2 Hv]]]].
+      + intros H. apply app_eq_nil in H as [_ H]. discriminate.
+      + rewrite ungap_app, (ungap_cons_res a [] Ea). intros H. apply app_eq_nil in H as [_ H]. discriminate.
+      + rewrite ungap_app, (ungap_cons_res b [] Eb). intros H. apply app_eq_nil in H as [_ H]. discriminate.
+      + exists (r1 ++ [a]), (r2 ++ [b]), st1, st2, en1, en2. split; [exact Hv|]. unfold sc in Hs. rewrite Hs. exact E.
+  Qed.
 End Gotoh.
